@@ -452,4 +452,4 @@ def run(ctx):
     ps = enum_plans(quick)
     ctx.parallel(_worker_enum, [ps[i::32] for i in range(32)])
     ctx.exhaustive["all 256 RSTACK codes x 4 arrivals x 2 waiters; 64 counter states; error codes; loss points"] = True
-    ctx.parallel(_worker, [100] * 16 if quick else [25000] * 16)
+    ctx.parallel(_worker, [500] * 16 if quick else [25000] * 16)
